@@ -397,4 +397,82 @@ def c13(ctx):
                   ["the defs grid is the input: its (def, is) projection is logged by the harness from the decoded Value", "taxonomies are acyclic"])
 
 
-CHECKS = {"C13": c13, "C07": c07, "C08": c08, "C09": c09, "C10": c10, "C11": c11, "C03": c03, "C06": c06, "C01": c01, "C02": c02, "C04": c04, "C05": c05}
+def ns_mc(ctx, threads, nshards, wp, progs, keep=False, **kw):
+    consts = {"Threads": "{%s}" % ", ".join("t%d" % i for i in range(1, threads + 1)), "Syms": "<- MCSyms", "Graph": "<- MCGraph",
+              "NShards": nshards, "WriterPref": "TRUE" if wp else "FALSE", "Programs": "<- " + progs,
+              "KeepFirstGuard": "TRUE" if keep else "FALSE"}
+    return tlc_mc(ctx, "MC_NsCache", consts=consts, invariants=["AnswerCorrect", "CacheCoherent", "NoPanic", "NoReentry", "GuardsReleased", "EmitHistory"],
+                  properties=[] if keep else ["Termination"], deadlock=True, workers=12, timeout=3400, **kw)
+
+
+def corrupt_check(ctx, module, events_path, mutate, what, stateful_reset=None):
+    """binding self-test: a corrupted recorded trace must be rejected by the trace specification"""
+    evs = read_ndjson(events_path)
+    bad = mutate(evs)
+    if bad is None:
+        return
+    pth = ctx.fresh("corrupt") + ".ndjson"
+    for n, e in enumerate(bad):
+        e["i"] = n + 1
+    write_ndjson(pth, bad)
+    saved = (ctx.states, ctx.transitions, ctx.traces, ctx.evaluations)
+    r = tlc_trace(ctx, module, pth, 1)
+    ctx.states, ctx.transitions, ctx.traces, ctx.evaluations = saved
+    if not r:
+        raise ToolError("binding self-test failed: %s was accepted by %s" % (what, module))
+    ctx.notes.append("binding self-test: %s rejected (%s)" % (what, r[0]["reason"][:80]))
+
+
+def c14(ctx):
+    q = ctx.quick
+    # all interleavings of the cache protocol on the model (writer- and reader-preferring locks, every shard assignment)
+    ns_mc(ctx, 2, 1, True, "Progs1")
+    ns_mc(ctx, 2, 1, False, "Progs1")
+    ns_mc(ctx, 2, 1, True, "Progs3", keep=True, expect_violation="NoReentry")
+    if not q:
+        ns_mc(ctx, 2, 2, True, "Progs1")
+        ns_mc(ctx, 2, 2, False, "Progs1")
+        ns_mc(ctx, 2, 1, True, "Progs2")
+        ns_mc(ctx, 3, 1, True, "Progs3")
+        ns_mc(ctx, 3, 2, False, "Progs3")
+    # sequential histories: every order of <= 3 queries, enumerated by TLC, replayed on a cold namespace
+    vecs, _ = ns_mc(ctx, 1, 1, True, "ProgsSeq")
+    ev1 = hs_run(ctx, vecs, "hist")
+    ctx.bads += tlc_trace_stateful(ctx, "Trace_NsCache", ev1, "defs.load", shards=12)
+    note_events(ctx, ev1, key=lambda e: ["h", e.get("i")], trivial=lambda e: e.get("op") != "ns.qend")
+    # real threads on cold namespaces, observed through the hook
+    rounds = 60 if q else 3000
+    ev2 = hs_rec(ctx, "ns", rounds)
+    ctx.bads += tlc_trace_stateful(ctx, "Trace_NsCache", ev2, "defs.load", shards=14)
+    note_events(ctx, ev2, key=lambda e: ["t", e.get("i")], trivial=lambda e: e.get("op") != "ns.qend")
+
+    def drop_a_drop(evs):
+        for n, e in enumerate(evs):
+            if e.get("op") == "ns.drop":
+                return evs[:n] + evs[n + 1:]
+        return None
+
+    def partial_insert(evs):
+        for e in evs:
+            if e.get("op") == "ns.insert-begin" and len(e.get("value", [])) >= 2:
+                e["value"] = e["value"][:-1]
+                return evs
+        return None
+    corrupt_check(ctx, "Trace_NsCache", ev1, drop_a_drop, "a trace with one guard-drop event removed")
+    corrupt_check(ctx, "Trace_NsCache", ev1, partial_insert, "a trace whose inserted vector lost one element")
+    return finish(ctx,
+                  "MC: NsCache.tla (one action per cache touch of supertypes_of / all_supertypes_of / inheritance / fits, read guards, "
+                  "blocking insert, writer- and reader-preferring shard locks, every shard assignment) checked exhaustively for 2%s threads "
+                  "x every pair of queries on a diamond graph with an undefined supertype: AnswerCorrect, CacheCoherent, NoReentry, NoPanic, "
+                  "GuardsReleased, deadlock freedom, Termination; a negative control (guard kept across the loop) must violate NoReentry. "
+                  "GEN: all 258 sequential histories of <= 3 queries replayed on cold namespaces. REC: %d rounds of 2/4/8/16 real threads "
+                  "released by a barrier on a cold namespace (synthetic diamond graph; every 5th round the real defs), random "
+                  "supertypes/inheritance/fits/reflect/relationship queries; the verif hook logs every cache touch and guard drop; "
+                  "Trace_NsCache re-checks NoReentry per thread in program order, CacheCoherent on every served/inserted value, "
+                  "GuardsReleased, answers = graph = same query alone on a cold namespace, no panic, no unfinished round (20 s watchdog). "
+                  "distinct = query executions" % ("" if q else "-3", rounds),
+                  ["real schedules cannot be forced: all interleavings are explored on the model, real runs are validated per thread "
+                   "against the protocol invariants", "dashmap's shard locks are modelled as reader/writer locks under both preference disciplines"])
+
+
+CHECKS = {"C14": c14, "C13": c13, "C07": c07, "C08": c08, "C09": c09, "C10": c10, "C11": c11, "C03": c03, "C06": c06, "C01": c01, "C02": c02, "C04": c04, "C05": c05}
